@@ -430,3 +430,117 @@ Proof.
   intros Wv Tv. unfold to_pretty_string_w. rewrite (to_pretty_string_w_enc _ v Wv Tv). unfold Dispatch.to_pretty_string_m.
   rewrite (is_jsonb_enc v Wv Tv), (parse_jsonb_enc v Wv). reflexivity.
 Qed.
+
+(* ---------------------------------------------------------------- the fuel is never used up, on ANY buffer *)
+Lemma num_decode_not_fuel p : num_decode p <> Err EFuel.
+Proof.
+  unfold num_decode. destruct p as [|ty rest]; [discriminate|].
+  repeat match goal with
+         | |- context [if ?c then _ else _] => destruct c
+         | |- context [match length rest with _ => _ end] => destruct (length rest)
+         | |- context [match ?n with O => _ | S _ => _ end] => destruct n
+         end; discriminate.
+Qed.
+Lemma escape_range_not_err V a b e : escape_range_w V a b <> Err e.
+Proof. unfold escape_range_w, slice_p. destruct (a <? b); [|discriminate]. destruct (slice V a (b - a)); discriminate. Qed.
+Lemma read_u32_bound bs j w : read_u32 bs j = Some w -> j + 4 <= lenN bs.
+Proof. unfold read_u32, slice. destruct (j + 4 <=? lenN bs) eqn:E; [intros _; apply N.leb_le; exact E|discriminate]. Qed.
+Lemma rd_words_len : forall fuel bs i len j ws, rd_words fuel bs i len j = Some ws -> lenN ws = len - i.
+Proof.
+  induction fuel as [|f IH]; intros bs i len j ws; cbn [rd_words]; [discriminate|].
+  destruct (i <? len) eqn:E.
+  - destruct (read_u32 bs j); [|discriminate]. destruct (rd_words f bs (i + 1) len (j + 4)) as [ws'|] eqn:R; [|discriminate].
+    intros H. injection H as <-. rewrite lenN_cons, (IH _ _ _ _ _ R). apply N.ltb_lt in E. lia.
+  - intros H. injection H as <-. apply N.ltb_ge in E. rewrite lenN_nil. lia.
+Qed.
+
+Definition not_fuel {A} (r : res A) : Prop := r <> Err EFuel.
+Lemma not_fuel_err {A B} e : @not_fuel A (Err e) -> @not_fuel B (Err e).
+Proof. intros H E. apply H. injection E as ->. reflexivity. Qed.
+
+Section NoFuel.
+  Variable V : list N.
+  Variable pretty : bool.
+  Variable sc : nat -> N -> N -> res (list N * N).
+  Variable J : N.
+  Hypothesis Hok : forall ind j v r, sc ind j v = Ok r -> j + 4 <= lenN V.
+  Hypothesis Hnf : forall ind j v, J <= j -> j + 4 <= v -> not_fuel (sc ind j v).
+
+  Lemma arr_loop_not_fuel : forall k ind i len j v, (1 <= k)%nat -> lenN V < j + 4 * N.of_nat k -> J <= j -> j + 4 * (len - i) <= v ->
+    not_fuel (arr_str_loop pretty sc k ind i len j v).
+  Proof.
+    induction k as [|k IH]; intros ind i len j v Hk Hl Hj Hv; [lia|]. cbn [arr_str_loop].
+    destruct (i <? len) eqn:E; [|discriminate]. apply N.ltb_lt in E.
+    pose proof (Hnf (ind + 2)%nat j v Hj ltac:(lia)) as S1.
+    destruct (sc (ind + 2)%nat j v) as [[t l]|e|] eqn:Es; cbn [bind]; [|exact (not_fuel_err _ S1)|discriminate].
+    pose proof (Hok _ _ _ _ Es) as B1.
+    pose proof (IH ind (i + 1) len (j + 4) (v + l) ltac:(lia) ltac:(lia) ltac:(lia) ltac:(lia)) as S2.
+    destruct (arr_str_loop pretty sc k ind (i + 1) len (j + 4) (v + l)); cbn [bind]; [discriminate|exact (not_fuel_err _ S2)|discriminate].
+  Qed.
+
+  Lemma obj_loop_not_fuel : forall kws ind i j koff v, J <= j -> j + 4 * lenN kws <= v ->
+    not_fuel (obj_str_loop V pretty sc kws ind i j koff v).
+  Proof.
+    induction kws as [|kw r IH]; intros ind i j koff v Hj Hv; cbn [obj_str_loop]; [discriminate|].
+    rewrite lenN_cons in Hv.
+    pose proof (escape_range_not_err V koff (koff + je_len kw)) as S0.
+    destruct (escape_range_w V koff (koff + je_len kw)) as [k|e|]; cbn [bind]; [|exfalso; apply (S0 e); reflexivity|discriminate].
+    pose proof (Hnf (ind + 2)%nat j v Hj ltac:(lia)) as S1.
+    destruct (sc (ind + 2)%nat j v) as [[t l]|e|] eqn:Es; cbn [bind]; [|exact (not_fuel_err _ S1)|discriminate].
+    pose proof (IH ind (i + 1) (j + 4) (koff + je_len kw) (v + l) ltac:(lia) ltac:(lia)) as S2.
+    destruct (obj_str_loop V pretty sc r ind (i + 1) (j + 4) (koff + je_len kw) (v + l)); cbn [bind]; [discriminate|exact (not_fuel_err _ S2)|discriminate].
+  Qed.
+End NoFuel.
+
+Lemma container_not_fuel V pretty sc ind off :
+  (forall ind j v r, sc ind j v = Ok r -> j + 4 <= lenN V) ->
+  (off + 4 <= lenN V -> forall ind j v, 4 + off <= j -> j + 4 <= v -> not_fuel (sc ind j v)) ->
+  not_fuel (container_str_w V pretty sc ind off).
+Proof.
+  intros Hok Hnf. unfold container_str_w. destruct (read_u32 V off) as [h|] eqn:RH; [|discriminate].
+  specialize (Hnf (read_u32_bound _ _ _ RH)).
+  destruct (hdr_type h =? SCALAR_CONTAINER_TAG).
+  { pose proof (Hnf ind (4 + off) (8 + off) ltac:(lia) ltac:(lia)) as S1.
+    destruct (sc ind (4 + off) (8 + off)) as [[t l]|e|]; cbn [bind]; [discriminate|exact (not_fuel_err _ S1)|discriminate]. }
+  destruct (hdr_type h =? ARRAY_CONTAINER_TAG).
+  { pose proof (arr_loop_not_fuel V pretty sc (4 + off) Hok Hnf (S (length V)) ind 0 (hdr_len h) (4 + off) (4 + off + 4 * hdr_len h)
+                  ltac:(lia) ltac:(unfold lenN; lia) ltac:(lia) ltac:(lia)) as S1.
+    destruct (arr_str_loop pretty sc (S (length V)) ind 0 (hdr_len h) (4 + off) (4 + off + 4 * hdr_len h)); cbn [bind]; [discriminate|exact (not_fuel_err _ S1)|discriminate]. }
+  destruct (hdr_type h =? OBJECT_CONTAINER_TAG); [|discriminate].
+  destruct (rd_words (S (length V)) V 0 (hdr_len h) (4 + off)) as [kws|] eqn:RK; [|discriminate].
+  pose proof (rd_words_len _ _ _ _ _ _ RK) as LK.
+  pose proof (obj_loop_not_fuel V pretty sc (4 + off) Hok Hnf kws ind 0 (4 + off + 4 * hdr_len h) (4 + off + 8 * hdr_len h)
+                (4 + off + 8 * hdr_len h + sum_je_len kws) ltac:(lia) ltac:(lia)) as S1.
+  destruct (obj_str_loop V pretty sc kws ind 0 (4 + off + 4 * hdr_len h) (4 + off + 8 * hdr_len h) (4 + off + 8 * hdr_len h + sum_je_len kws));
+    cbn [bind]; [discriminate|exact (not_fuel_err _ S1)|discriminate].
+Qed.
+
+Lemma scalar_ok_read pf V pretty f ind j v r : scalar_str_w pf V pretty f ind j v = Ok r -> j + 4 <= lenN V.
+Proof. destruct f as [|f]; cbn [scalar_str_w]; [discriminate|]. destruct (read_u32 V j) eqn:R; [intros _; exact (read_u32_bound _ _ _ R)|discriminate]. Qed.
+
+Lemma scalar_not_fuel pf V pretty : forall f ind j v, (1 <= f)%nat -> lenN V < j + 4 * N.of_nat f -> j + 4 <= v ->
+  not_fuel (scalar_str_w pf V pretty f ind j v).
+Proof.
+  induction f as [|f IH]; intros ind j v Hf Hl Hv; [lia|]. cbn [scalar_str_w].
+  destruct (read_u32 V j) as [w|] eqn:RW; [|discriminate].
+  assert (T : forall (r : res (list N)), not_fuel r -> not_fuel (do t <- r; Ok (t, je_len w))).
+  { intros [t|e|] Hr; cbn [bind]; [discriminate|intros H; apply Hr; injection H as ->; reflexivity|discriminate]. }
+  apply T.
+  destruct (je_type w =? NULL_TAG); [discriminate|]. destruct (je_type w =? TRUE_TAG); [discriminate|].
+  destruct (je_type w =? FALSE_TAG); [discriminate|].
+  destruct (je_type w =? NUMBER_TAG).
+  { unfold slice_p. destruct (slice V v (je_len w)) as [p|]; cbn [or_panic bind]; [|discriminate].
+    pose proof (num_decode_not_fuel p) as S1. destruct (num_decode p); cbn [bind]; [discriminate|exact (not_fuel_err _ S1)|discriminate]. }
+  destruct (je_type w =? STRING_TAG); [apply escape_range_not_err|].
+  destruct (je_type w =? CONTAINER_TAG); [|discriminate].
+  apply container_not_fuel.
+  - intros ind' j' v' r. apply scalar_ok_read.
+  - intros Hb ind' j' v' Hj' Hv'. apply IH; lia.
+Qed.
+
+Theorem render_w_not_fuel pf V pretty : render_w pf V pretty <> Err EFuel.
+Proof.
+  unfold render_w. apply container_not_fuel.
+  - intros ind j v r. apply scalar_ok_read.
+  - intros _ ind j v Hj Hv. apply scalar_not_fuel; [lia|unfold lenN; lia|exact Hv].
+Qed.
